@@ -1,7 +1,93 @@
-(* C42 placeholder, replaced below *)
+(* C42: TLS records are integrity-protected.  Property theorems only (proofs in proofs/TlsRecordProofs.v).
+
+   Model (model/TlsRecord.v): Conn.Write/writeRecord/halfConn.encrypt and Conn.Read/readRecord/
+   halfConn.decrypt of bfe_tls/conn.go after the handshake.  The per-record authenticated encryption
+   (MAC-then-encrypt of the RC4 and CBC suites, AEAD of AES-GCM / ChaCha20-Poly1305) is an abstract pair
+   seal/open; cryptographic strength is a hypothesis, what is proved is how BFE uses it: the sequence
+   number, record type and version enter every check, the check precedes any use of the payload, errors
+   are sticky, nothing of a rejected record is delivered. *)
 From Coq Require Import List ZArith Bool.
-From Bfe Require Import lib.Val model.TlsRecord proofs.TlsRecordProofs run.RunC42.
+From Bfe Require Import lib.Val lib.Bytes model.TlsRecord run.RunC42 proofs.TlsRecordProofs.
+Import ListNotations.
 Open Scope Z_scope.
-Theorem C42_open_seal : forall s t v p, sopen s t v (Sealed s t v p) = Some p.
-Proof. exact sopen_seal. Qed.
-Print Assumptions C42_open_seal.
+
+(* C42_prefix_only.  For EVERY authenticated-encryption primitive (body type B, seal, open) such that
+     - open inverts seal (open_seal),
+     - a sealed body opens only under the sequence number, record type and version it was sealed with
+       (open_bind: the MAC / AEAD additional data cover seq, type, version),
+   for every list S of plaintext records (type, payload) that the sender protected (payloads are bytes,
+   at most 16384 long), and for EVERY record stream l (with `trail` bytes of an incomplete header at its
+   end) in which each record body is either a body the sender sealed or one that opens under nothing
+   (`authentic`: unforgeability, stated on the wire contents - the adversary may drop, reorder, replay,
+   truncate, re-frame, modify and inject arbitrarily), calling Conn.Read until it fails yields (d, st, n):
+     1. d is a prefix of the application data the sender wrote;
+     2. the n accepted records are exactly the sender's first n records, unmodified, in order (n is the
+        final sequence number: it advanced once per accepted record), and d is their application data;
+     3. Read ends with io.EOF (st = 1) only if the whole stream is exactly the sender's first n records
+        (a tail was cut off at a record boundary / inside the next header, or nothing was changed), or the
+        sender's own close_notify was accepted in sequence.  Every other stream ends in a hard error
+        (bad_record_mac 120, unexpected_message 110, record_overflow 122, protocol_version 170,
+        no_renegotiation 200, io.ErrUnexpectedEOF 2). *)
+Theorem C42_prefix_only :
+  forall (B : Type) (seal : Z -> Z -> Z -> list Z -> B) (open : Z -> Z -> Z -> B -> option (list Z))
+         (c : cfg) (S : list (Z * list Z)),
+    (forall s t v p, open s t v (seal s t v p) = Some p) ->
+    (forall s t v s' t' v' p, open s t v (seal s' t' v' p) <> None -> s = s' /\ t = t' /\ v = v') ->
+    Forall (fun tp => wf_bytes (snd tp) = true /\ blen (snd tp) <= maxPlaintext) S ->
+    forall l trail d st n,
+      Forall (authentic B seal open c S) l ->
+      receive B open c l trail = (d, st, n) ->
+      (exists rest, app_data S = d ++ rest) /\
+      0 <= n /\ firstn (Z.to_nat n) l = firstn (Z.to_nat n) (protect B seal c S) /\
+      d = app_data (firstn (Z.to_nat n) S) /\
+      (st = 1 -> l = firstn (Z.to_nat n) (protect B seal c S) \/
+                 (1 <= n /\ exists lvl, nth_error S (Z.to_nat n - 1) = Some (21, [lvl; 0]))).
+Proof. exact receive_prefix_only. Qed.
+Print Assumptions C42_prefix_only.
+
+(* The sending side: the application data of the records produced by Conn.Write (1/n-1 split for CBC up
+   to TLS 1.0, 1024-byte pieces) and Conn.Close is exactly what the application wrote. *)
+Theorem C42_sender_data : forall cf writes close,
+  app_data (plain_records cf writes close) = sent_bytes writes.
+Proof. exact app_data_plain. Qed.
+Print Assumptions C42_sender_data.
+
+(* The executable model (free term algebra for seal/open, tamper scripts of flips, swaps, replays, drops,
+   forged records, truncations and a stream cut - the inputs of the harness): for every well-formed
+   input the delivered bytes are a prefix of the bytes written, the accepted records are the original
+   first n, and if the adversary changed anything the receiver reads (relevant) other than cutting off
+   a tail at a record boundary (tail_dropped, finding 1) Read does not end with io.EOF. *)
+Theorem C42_model_prefix_and_detection : forall x w trail d st n,
+  wf_C42 x = true -> tampered_wire x = (w, trail) ->
+  receive sbody sopen (i_cfg x) w trail = (d, st, n) ->
+  is_prefix d (sent_bytes (i_writes x)) = true /\
+  0 <= n /\ firstn (Z.to_nat n) w = firstn (Z.to_nat n) (orig_wire x) /\
+  (relevant x = true -> tail_dropped x = false -> st <> 1).
+Proof. exact model_prefix_and_detection. Qed.
+Print Assumptions C42_model_prefix_and_detection.
+
+(* The property predicate that the harness evaluates on the implementation holds of the model on every
+   tampered input outside finding class 1. *)
+Theorem C42_prop_of_model_tampered_partial : forall i x,
+  dec_C42 i = Some x -> wf_C42 x = true -> relevant x = true -> kf_C42 i = 0 ->
+  prop_C42 i (run_C42 i) = true.
+Proof. exact prop_C42_of_model_tampered. Qed.
+Print Assumptions C42_prop_of_model_tampered_partial.
+
+(* Finding 1 (refutation of "every tampering is detected as an error"): dropping the last application
+   record and the close_notify is reported as plain io.EOF. *)
+Theorem C42_tail_truncation_refuted : exists i x,
+  dec_C42 i = Some x /\ wf_C42 x = true /\ relevant x = true /\ kf_C42 i = 1 /\
+  run_C42 i = VL [VB [104; 101; 108; 108; 111]; VZ 1; VZ 1] /\ prop_C42 i (run_C42 i) = false.
+Proof. exact tail_truncation_witness. Qed.
+Print Assumptions C42_tail_truncation_refuted.
+
+(* Non-vacuity: a flipped AEAD tag bit, a replayed record, an injected plaintext close_notify are all
+   relevant, not in the finding class, and end in bad_record_mac / unexpected_message after delivering
+   only the genuine prefix. *)
+Example C42_examples :
+  run_C42 ex_flip_tag = VL [VB [104; 101; 108; 108; 111]; VZ 120; VZ 1] /\ kf_C42 ex_flip_tag = 0 /\
+  run_C42 ex_replay = VL [VB [104; 101; 108; 108; 111]; VZ 120; VZ 1] /\ kf_C42 ex_replay = 0 /\
+  run_C42 ex_forged_close = VL [VB [104]; VZ 110; VZ 1] /\ kf_C42 ex_forged_close = 0 /\
+  run_C42 ex_clean = VL [VB [104; 101; 108; 108; 111; 119; 111; 114; 108; 100]; VZ 1; VZ 5].
+Proof. exact examples_lemma. Qed.
